@@ -87,6 +87,12 @@ impl<'a> Tape<'a> {
         (0..n).map(|_| r.next() as u8).collect()
     }
     /// A derived deterministic stream (for per-poll jitter and similar bulk noise).
+    /// Everything that is left on the tape, one byte per choice (byte-level fuzz inputs).
+    pub fn rest_bytes(&mut self) -> Vec<u8> {
+        let v: Vec<u8> = self.data[self.pos.min(self.data.len())..].iter().map(|x| *x as u8).collect();
+        self.pos = self.data.len();
+        v
+    }
     pub fn stream(&mut self) -> SplitMix {
         SplitMix(u64::from(self.raw()) | (u64::from(self.raw()) << 32))
     }
@@ -195,6 +201,16 @@ impl Obs {
             self.case_sample = Some(f());
         }
     }
+    /// For drivers outside this module: open / close one pseudo case.
+    pub fn begin_public(&mut self) {
+        self.begin(true);
+    }
+    pub fn commit_public(&mut self) {
+        self.commit();
+    }
+    pub fn sample_force(&mut self, v: Value) {
+        self.samples.push(v);
+    }
     pub fn wants_sample(&self) -> bool {
         self.want_sample
     }
@@ -290,12 +306,20 @@ impl log::Log for FmtLogger {
 }
 static LOGGER: FmtLogger = FmtLogger;
 
+/// Install the formatting logger (idempotent).
+pub fn init_logging() {
+    static ONCE: std::sync::Once = std::sync::Once::new();
+    ONCE.call_once(|| {
+        let _ = log::set_logger(&LOGGER);
+        log::set_max_level(log::LevelFilter::Trace);
+        if std::env::var("PBVERIF_SHOWLOG").is_ok() {
+            SHOWLOG.store(true, Ordering::Relaxed);
+        }
+    });
+}
+
 pub fn init_process() {
-    let _ = log::set_logger(&LOGGER);
-    log::set_max_level(log::LevelFilter::Trace);
-    if std::env::var("PBVERIF_SHOWLOG").is_ok() {
-        SHOWLOG.store(true, Ordering::Relaxed);
-    }
+    init_logging();
     std::panic::set_hook(Box::new(|info| {
         let msg = if let Some(s) = info.payload().downcast_ref::<&str>() {
             s.to_string()
@@ -591,6 +615,9 @@ impl<'p> Runner<'p> {
     /// Saved cases (shrunk failures of the past, probes of fixed findings) are replayed first, in
     /// strict mode: /verif/regress/<ID>/*.json.
     pub fn run_regressions(&mut self) {
+        if std::env::var("PBVERIF_NO_REGRESS").is_ok() {
+            return; // development aid: judge the generators alone
+        }
         let dir = format!("{}/regress/{}", verif_dir(), self.prop.id);
         let Ok(rd) = std::fs::read_dir(&dir) else { return };
         let mut files: Vec<String> = rd.filter_map(|e| e.ok()).map(|e| e.path().display().to_string()).filter(|p| p.ends_with(".json")).collect();
@@ -636,9 +663,20 @@ impl<'p> Runner<'p> {
 
     pub fn run_plan(&mut self) {
         let steps = (self.prop.plan)(self.tier);
+        // development aid: PBVERIF_ONLY_STEP=<sub-check or fuzz target> runs just that step
+        let only = std::env::var("PBVERIF_ONLY_STEP").ok();
         for step in steps {
             if !self.violations.is_empty() {
                 break;
+            }
+            if let Some(o) = &only {
+                let name = match &step {
+                    Step::Pbt { kind, .. } | Step::Enumerate { kind, .. } | Step::EnumerateRange { kind, .. } => *kind,
+                    Step::Fuzz { target, .. } => *target,
+                };
+                if name != o {
+                    continue;
+                }
             }
             match step {
                 Step::Pbt {
